@@ -33,11 +33,15 @@ package protectedmemory
 //@ monitor (*secretInternal).rw
 //@   facet C11
 //@   cond c
+//@   counts accessCounter as myreads
 //@   guards closing, closed, accessCounter
 //@   monotone closing, closed
-//@   invariant [open-secret-is-mapped-and-locked] !this.closed ==> this.bytes != nil && len(this.bytes) >= 1 && mapped(arr(this.bytes)) && locked(arr(this.bytes)) && this.accessCounter >= 0
+//@   invariant [open-secret-is-mapped] !this.closed ==> this.bytes != nil && len(this.bytes) >= 1 && mapped(arr(this.bytes)) && this.accessCounter >= 0
+// a Close that failed half-way (after unlocking) leaves a secret that refuses readers and can only be closed again
+//@   invariant [locked-until-close-finds-no-reader] !this.closed && (this.accessCounter > 0 || !this.closing) ==> locked(arr(this.bytes))
 //@   invariant [readable-while-readers] !this.closed && this.accessCounter > 0 ==> prot(arr(this.bytes)) == 1
 //@   invariant [closed-secret-has-no-memory] this.closed ==> this.bytes == nil && this.closing
+//@   invariant [this-thread-s-readers-are-counted] myreads(this) >= 0 && this.accessCounter >= myreads(this)
 //@   invariant [wired] this.rw != nil && this.c != nil && this.mc != nil
 //@ immutable (secretInternal).rw, (secretInternal).c, (secretInternal).mc
 
@@ -93,6 +97,7 @@ package protectedmemory
 //@   ensures [C11:lock-released] *s.rw == 0
 //@   ensures [C11:closed-secret-refuses-access] old(s.closing || s.closed) ==> err != nil
 //@   ensures [C12:failed-access-changes-nothing] err != nil ==> s.accessCounter == old(s.accessCounter) && prot(arr(s.bytes)) == old(prot(arr(s.bytes))) && s.closed == old(s.closed) && s.closing == old(s.closing)
+//@   ensures [C11:takes-one-read-iff-it-succeeds] myreads(s) == old(myreads(s)) + (if err == nil then 1 else 0)
 //@   ensures [C11:reader-sees-read-only-memory] err == nil ==> s.accessCounter == old(s.accessCounter) + 1 && prot(arr(s.bytes)) == 1 && !s.closed && mapped(arr(s.bytes)) && locked(arr(s.bytes))
 
 //@ func (*secretInternal).release
@@ -102,6 +107,8 @@ package protectedmemory
 //@   opt no-frame
 //@   opt old-at-acquire
 //@   requires wfS(s) && *s.rw == 0
+//@   requires [C11,C12:a-reader-releases-only-what-it-acquired] myreads(s) >= 1
+//@   ensures [C11:gives-back-one-read] myreads(s) == old(myreads(s)) - 1
 //@   ensures [C11:lock-released] *s.rw == 0
 //@   ensures [C11:reader-count-goes-down] s.accessCounter == old(s.accessCounter) - 1
 //@   ensures [C11:last-reader-restores-no-access] err == nil && s.accessCounter == 0 && !old(s.closed) ==> prot(arr(s.bytes)) == 0
@@ -111,7 +118,7 @@ package protectedmemory
 //@   facet C11, C12
 //@   safety C12
 //@   opt no-frame
-//@   requires wfS(s) && *s.rw == 2 && !s.closed && s.accessCounter == 0 && s.bytes != nil && mapped(arr(s.bytes)) && locked(arr(s.bytes))
+//@   requires wfS(s) && *s.rw == 2 && !s.closed && s.closing && s.accessCounter == 0 && s.bytes != nil && mapped(arr(s.bytes))
 //@   ensures [C11,C12:close-wipes-unlocks-and-unmaps] err == nil ==> s.closed && s.bytes == nil && !mapped(arr(old(s.bytes))) && !locked(arr(old(s.bytes)))
 //@   ensures [C12:failed-close-can-be-retried] err != nil ==> !s.closed && s.bytes == old(s.bytes) && mapped(arr(s.bytes)) && s.accessCounter == 0
 //@   ensures [C12:in-use-released-only-when-closed] cnt(securememory.InUseCounter) == old(cnt(securememory.InUseCounter)) - (if err == nil then 1 else 0)
@@ -123,7 +130,7 @@ package protectedmemory
 //@   opt no-frame
 //@   opt old-at-acquire
 //@   requires wfS(s) && *s.rw == 0
-//@   loop 1 invariant [C11:closing-under-lock] *s.rw == 2 && s.closing && (!s.closed ==> s.bytes != nil && len(s.bytes) >= 1 && mapped(arr(s.bytes)) && locked(arr(s.bytes)) && s.accessCounter >= 0) && (!s.closed && s.accessCounter > 0 ==> prot(arr(s.bytes)) == 1) && (s.closed ==> s.bytes == nil)
+//@   loop 1 invariant [C11:closing-under-lock] *s.rw == 2 && s.closing && (!s.closed ==> s.bytes != nil && len(s.bytes) >= 1 && mapped(arr(s.bytes)) && s.accessCounter >= 0) && (!s.closed && s.accessCounter > 0 ==> locked(arr(s.bytes)) && prot(arr(s.bytes)) == 1) && (s.closed ==> s.bytes == nil) && myreads(s) >= 0 && s.accessCounter >= myreads(s)
 //@   ensures [C11:lock-released] *s.rw == 0
 //@   ensures [C11,C12:close-succeeds-only-when-closed] err == nil ==> s.closed
 //@   ensures [C12:failed-close-can-be-retried] err != nil ==> !s.closed && s.bytes != nil && mapped(arr(s.bytes))
@@ -136,6 +143,7 @@ package protectedmemory
 //@   opt no-frame
 //@   param action secretAction
 //@   requires s != nil && wfS(s.secretInternal) && *s.secretInternal.rw == 0 && action != nil
+//@   ensures [C11,C12:a-reader-releases-exactly-what-it-acquired] myreads(s.secretInternal) == old(myreads(s.secretInternal))
 //@   ensures [C11,C12:a-reader-releases-only-what-it-acquired] retis(release, 1, 0, ret(release, 1, 0)) ==> retis(access, 1, 0, nil)
 //@   ensures [C11:callback-runs-only-between-access-and-release] retis(action, 1, 0, ret(action, 1, 0)) ==> retis(access, 1, 0, nil) && retis(release, 1, 0, ret(release, 1, 0))
 //@   ensures [C11:lock-released] *s.secretInternal.rw == 0
@@ -147,6 +155,7 @@ package protectedmemory
 //@   opt no-frame
 //@   param action secretAction
 //@   requires s != nil && wfS(s.secretInternal) && *s.secretInternal.rw == 0 && action != nil
+//@   ensures [C11,C12:a-reader-releases-exactly-what-it-acquired] myreads(s.secretInternal) == old(myreads(s.secretInternal))
 //@   ensures [C11,C12:a-reader-releases-only-what-it-acquired] retis(release, 1, 0, ret(release, 1, 0)) ==> retis(access, 1, 0, nil)
 //@   ensures [C11:callback-runs-only-between-access-and-release] retis(action, 1, 0, ret(action, 1, 0)) ==> retis(access, 1, 0, nil) && retis(release, 1, 0, ret(release, 1, 0))
 //@   ensures [C11:lock-released] *s.secretInternal.rw == 0
